@@ -4,7 +4,7 @@
 r=${1:-5}
 cd /verif || exit 2
 {
-for d in /tmp/wt$r-C*/seeded/[12]; do
+for d in /tmp/wt$r-C*/seeded/[1234]; do
   [ -f $d/patch.diff ] && [ -f $d/meta.json ] || continue
   c=$(echo $d | sed "s#/tmp/wt$r-\(C[0-9]*\)/seeded/.*#\1#"); i=$(basename $d)
   [ -d /verif/seeded/$c-r$r-$i ] || echo "tools/seedeval.py $d $c-r$r-$i $c"
